@@ -394,6 +394,16 @@ fn run_sinkscan(job: &Value) -> Value {
         ("WouldBlock", io::ErrorKind::WouldBlock),
         ("TimedOut", io::ErrorKind::TimedOut),
         ("PermissionDenied", io::ErrorKind::PermissionDenied),
+        // kinds that the library itself produces elsewhere for its inputs (a missing file, text that is not UTF-8): coming from
+        // the sink they are failures of the sink all the same
+        ("NotFound", io::ErrorKind::NotFound),
+        ("InvalidData", io::ErrorKind::InvalidData),
+        ("InvalidInput", io::ErrorKind::InvalidInput),
+        ("UnexpectedEof", io::ErrorKind::UnexpectedEof),
+        ("AlreadyExists", io::ErrorKind::AlreadyExists),
+        ("ConnectionReset", io::ErrorKind::ConnectionReset),
+        ("Unsupported", io::ErrorKind::Unsupported),
+        ("OutOfMemory", io::ErrorKind::OutOfMemory),
     ];
     let mut anomalies: Vec<Value> = Vec::new();
     let mut injections = 0u64;
